@@ -1,6 +1,6 @@
 (* FieldsLemmas.v — lemmas about the field model (Fields.v). *)
 From Coq Require Import ZArith NArith String List Bool Lia SpecFloat.
-From Cinco Require Import Base Str StrLemmas Num Net Codec Fields.
+From Cinco Require Import Base Str Num Net Codec NetLemmas CodecLemmas StrLemmas Fields.
 Import ListNotations.
 Open Scope Z_scope.
 
@@ -227,4 +227,303 @@ Proof.
   - now apply apply_strip_norm.
   - apply apply_case_idem.
   - destruct Hc as [Hc|Hc]; [now left|right]. unfold str_norm. now rewrite case_modelled_apply.
+Qed.
+
+(* ============================ numbers and booleans ============================ *)
+Definition in_bounds (mn mx : option Z) (z : Z) : Prop :=
+  (forall m, mn = Some m -> m <= z) /\ (forall m, mx = Some m -> z <= m).
+
+(* which Python values IntField converts, and to what (int(x)) *)
+Inductive int_of : pyval -> Z -> Prop :=
+| io_int : forall z, int_of (PInt z) z
+| io_float : forall f z, trunc_float f = Some z -> int_of (PFloat f) z
+| io_str : forall s z, num_str_modelled s = true -> parse_int s = Some z -> int_of (PStr s) z.
+
+Lemma int_convert_iff : forall x z, int_convert x = Ok z <-> int_of x z.
+Proof.
+  intros x z. split.
+  - destruct x; cbn; try discriminate.
+    + intro H; injection H as <-; constructor.
+    + destruct (trunc_float f) eqn:E; [intro H; injection H as <-; now constructor|destruct (sf_is_nan f); discriminate].
+    + destruct (num_str_modelled s) eqn:E; [|discriminate]. destruct (parse_int s) eqn:P; [|discriminate].
+      intro H; injection H as <-. now constructor.
+  - intro H. destruct H; cbn; [reflexivity| now rewrite H | now rewrite H, H0].
+Qed.
+
+Lemma bounds_check : forall mn mx n,
+  (if match mn with Some m => negb (m <=? n) | None => false end then Err EValue
+   else if match mx with Some m => negb (n <=? m) | None => false end then Err EValue
+   else Ok (PInt n)) = Ok (PInt n) <-> in_bounds mn mx n.
+Proof.
+  intros mn mx n. unfold in_bounds. split.
+  - intro H. destruct mn as [a|], mx as [b|]; split; intros m E; try discriminate; injection E as <-.
+    all: try (destruct (a <=? n) eqn:A; cbn in H; [|discriminate]).
+    all: try (destruct (n <=? b) eqn:B; cbn in H; [|discriminate]).
+    all: try apply Z.leb_le; assumption.
+  - intros [A B]. destruct mn as [a|]; [specialize (A a eq_refl); apply Z.leb_le in A; rewrite A|];
+    (destruct mx as [b|]; [specialize (B b eq_refl); apply Z.leb_le in B; rewrite B|]); reflexivity.
+Qed.
+
+Lemma int_validate_exact : forall mn mx x v,
+  int_validate mn mx x = Ok v <-> exists z, int_of x z /\ in_bounds mn mx z /\ v = PInt z.
+Proof.
+  intros mn mx x v. unfold int_validate. split.
+  - destruct (int_convert x) as [n| |] eqn:E; try discriminate. cbn. intro H.
+    exists n. apply int_convert_iff in E. split; [exact E|].
+    assert (Hv : v = PInt n).
+    { destruct (match mn with Some m => negb (m <=? n) | None => false end); [discriminate|].
+      destruct (match mx with Some m => negb (n <=? m) | None => false end); [discriminate|]. now injection H. }
+    subst v. split; [|reflexivity]. now apply bounds_check.
+  - intros [z [Hz [Hb ->]]]. apply int_convert_iff in Hz. rewrite Hz. cbn. now apply bounds_check.
+Qed.
+
+Lemma int_validate_fixpoint : forall mn mx z, in_bounds mn mx z -> int_validate mn mx (PInt z) = Ok (PInt z).
+Proof. intros. apply int_validate_exact. exists z. repeat split; try apply H. constructor. Qed.
+
+(* bool is an int in Python, but IntField / FloatField refuse it *)
+Lemma int_rejects_bool : forall mn mx b, int_validate mn mx (PBool b) = Err EValue.
+Proof. reflexivity. Qed.
+Lemma float_rejects_bool : forall mn mx b, float_validate mn mx (PBool b) = Err EValue.
+Proof. reflexivity. Qed.
+
+(* FloatField *)
+Definition f_in_bounds (mn mx : option spec_float) (f : spec_float) : Prop :=
+  (forall m, mn = Some m -> sf_ge f m = true) /\ (forall m, mx = Some m -> sf_le f m = true).
+
+Lemma float_validate_ok : forall mn mx x v,
+  float_validate mn mx x = Ok v <-> exists f, float_convert x = Ok f /\ f_in_bounds mn mx f /\ v = PFloat f.
+Proof.
+  intros mn mx x v. unfold float_validate, f_in_bounds. split.
+  - destruct (float_convert x) as [f| |]; try discriminate. cbn. intro H. exists f. split; [reflexivity|].
+    destruct mn as [a|], mx as [b|].
+    all: try (destruct (sf_ge f a) eqn:A; cbn in H; [|discriminate]).
+    all: try (destruct (sf_le f b) eqn:B; cbn in H; [|discriminate]).
+    all: injection H as <-; split; [|reflexivity]; split; intros m E; try discriminate; injection E as <-; assumption.
+  - intros [f [-> [[A B] ->]]]. cbn.
+    destruct mn as [a|]; [rewrite (A a eq_refl)|]; (destruct mx as [b|]; [rewrite (B b eq_refl)|]); reflexivity.
+Qed.
+
+Lemma float_validate_fixpoint : forall mn mx f, f_in_bounds mn mx f -> float_validate mn mx (PFloat f) = Ok (PFloat f).
+Proof. intros. apply float_validate_ok. exists f. auto. Qed.
+
+(* F11: NaN never satisfies a bound *)
+Lemma sf_ge_nan : forall m, sf_ge S754_nan m = false.
+Proof. intro m. unfold sf_ge, SFleb. now destruct m. Qed.
+Lemma sf_le_nan : forall m, sf_le S754_nan m = false.
+Proof. intro m. unfold sf_le, SFleb. reflexivity. Qed.
+Lemma nan_rejected_by_bounds : forall mn mx x f,
+  float_validate mn mx x = Ok (PFloat f) -> mn <> None \/ mx <> None -> sf_is_nan f = false.
+Proof.
+  intros mn mx x f H Hb. apply float_validate_ok in H as [g [_ [[A B] E]]]. injection E as <-.
+  destruct f; try reflexivity. exfalso. destruct Hb as [Hb|Hb].
+  - destruct mn as [m|]; [|congruence]. specialize (A m eq_refl). now rewrite sf_ge_nan in A.
+  - destruct mx as [m|]; [|congruence]. specialize (B m eq_refl). now rewrite sf_le_nan in B.
+Qed.
+Lemma nan_accepted_unbounded : float_validate None None (PFloat S754_nan) = Ok (PFloat S754_nan).
+Proof. reflexivity. Qed.
+
+(* BoolField *)
+Inductive bool_of : pyval -> bool -> Prop :=
+| bo_bool : forall b, bool_of (PBool b) b
+| bo_int : forall z, bool_of (PInt z) (negb (z =? 0))
+| bo_float : forall f, bool_of (PFloat f) (negb (sf_is_zero f))
+| bo_true : forall s, all_ascii s = true -> In (lower s) true_tokens -> bool_of (PStr s) true
+| bo_false : forall s, all_ascii s = true -> In (lower s) false_tokens -> bool_of (PStr s) false.
+
+Lemma tokens_disjoint : forall t, In t true_tokens -> In t false_tokens -> False.
+Proof.
+  assert (H : forallb (fun t => negb (str_mem t false_tokens)) true_tokens = true) by (vm_compute; reflexivity).
+  intros t Ht Hf. rewrite forallb_forall in H. specialize (H t Ht). apply str_mem_In in Hf. now rewrite Hf in H.
+Qed.
+
+Lemma bool_validate_exact : forall x v, bool_validate x = Ok v <-> exists b, bool_of x b /\ v = PBool b.
+Proof.
+  intros x v. split.
+  - destruct x; unfold bool_validate; try discriminate.
+    + intro H; injection H as <-; eexists; split; [constructor|reflexivity].
+    + intro H; injection H as <-; eexists; split; [constructor|reflexivity].
+    + intro H; injection H as <-; eexists; split; [constructor|reflexivity].
+    + destruct (all_ascii s) eqn:A; [|discriminate].
+      destruct (str_mem (lower s) true_tokens) eqn:T.
+      * intro H; injection H as <-. exists true. split; [|reflexivity]. constructor; [exact A|now apply str_mem_In].
+      * destruct (str_mem (lower s) false_tokens) eqn:F; [|discriminate].
+        intro H; injection H as <-. exists false. split; [|reflexivity]. constructor; [exact A|now apply str_mem_In].
+  - intros [b [H ->]]. destruct H; unfold bool_validate; try reflexivity.
+    + rewrite H. apply str_mem_In in H0. now rewrite H0.
+    + rewrite H. destruct (str_mem (lower s) true_tokens) eqn:T.
+      * exfalso. apply str_mem_In in T. exact (tokens_disjoint _ T H0).
+      * apply str_mem_In in H0. now rewrite H0.
+Qed.
+
+(* ============================ containers ============================ *)
+Lemma map_res_length : forall (A B : Type) (f : A -> res B) l l', map_res f l = Ok l' -> length l' = length l.
+Proof.
+  intros A B f l. induction l as [|a r IH]; cbn; intros l' H.
+  - injection H as <-. reflexivity.
+  - destruct (f a) as [b| |]; try discriminate. cbn in H.
+    destruct (map_res f r) as [r'| |]; try discriminate. cbn in H. injection H as <-. cbn. f_equal. now apply IH.
+Qed.
+
+Lemma map_res_Forall2 : forall (A B : Type) (f : A -> res B) l l',
+  map_res f l = Ok l' <-> Forall2 (fun a b => f a = Ok b) l l'.
+Proof.
+  intros A B f l. induction l as [|a r IH]; cbn; intros l'; split; intro H.
+  - injection H as <-. constructor.
+  - inversion H. reflexivity.
+  - destruct (f a) as [b| |] eqn:E; try discriminate. cbn in H.
+    destruct (map_res f r) as [r'| |] eqn:E2; try discriminate. cbn in H. injection H as <-.
+    constructor; [exact E|now apply IH].
+  - inversion H as [|a' b r0 r' Hab Hr]; subst. rewrite Hab. cbn. apply IH in Hr. rewrite Hr. reflexivity.
+Qed.
+
+Lemma dict_build_acc_nonnil : forall l acc r, dict_build_acc acc l = Ok r -> acc <> [] \/ l <> [] -> r <> [].
+Proof.
+  induction l as [|[k v] l IH]; cbn; intros acc r H Hn.
+  - injection H as <-. destruct Hn; congruence.
+  - destruct (key_ok k); [|discriminate]. apply IH in H; [exact H|]. left.
+    destruct acc as [|[k' v'] acc']; cbn; [discriminate|]. destruct (key_eqb k k'); discriminate.
+Qed.
+Lemma dict_build_nonnil : forall l r, dict_build l = Ok r -> l <> [] -> r <> [].
+Proof. intros l r H Hn. apply (dict_build_acc_nonnil l [] r H). now right. Qed.
+
+Lemma validate_none : forall orc f, validate_with orc f PNone = if field_req f then Err EValue else Ok PNone.
+Proof. intros orc f. destruct f; reflexivity. Qed.
+
+(* required-empty rule for strings, lists and dicts *)
+Lemma required_empty_rejected : forall orc,
+  (forall o, validate_with orc (FStr true o) (PStr []) = Err EValue) /\
+  (forall t, validate_with orc (FListU true) (PList t []) = Err EValue) /\
+  (validate_with orc (FListU true) (PTuple []) = Err EValue) /\
+  (forall fid it t, validate_with orc (FListT fid true it) (PList t []) = Err EValue) /\
+  (forall t, validate_with orc (FDictU true) (PDict t []) = Err EValue) /\
+  (forall fid kf vf t, validate_with orc (FDictT fid true kf vf) (PDict t []) = Err EValue) /\
+  (forall f, field_req f = true -> validate_with orc f PNone = Err EValue).
+Proof.
+  intro orc. repeat split; intros; try reflexivity.
+  - cbn [validate_with]. rewrite str_validate_eq. cbv zeta.
+    assert (E : apply_strip (so_strip o) [] = []) by (destruct (so_strip o); reflexivity). rewrite E. reflexivity.
+  - rewrite validate_none, H. reflexivity.
+Qed.
+
+(* F39: an untyped list field stores a tuple as a list *)
+Lemma tuple_stored_as_list : forall orc req l v,
+  validate_with orc (FListU req) (PTuple l) = Ok v -> v = PList 0%N l.
+Proof. intros orc req l v. cbn. destruct (req && is_nil l); [discriminate|]. now intro H; injection H. Qed.
+
+(* ============================ Field.validate: per-class unfolding ============================ *)
+Lemma pyval_none_dec : forall x : pyval, x = PNone \/ x <> PNone.
+Proof. intro x; destruct x; [left; reflexivity|right; discriminate..]. Qed.
+
+Lemma v_any : forall orc r x, x <> PNone -> validate_with orc (FAny r) x = Ok x.
+Proof. intros orc r x H; destruct x; [congruence|reflexivity..]. Qed.
+Lemma v_str : forall orc r o x, x <> PNone ->
+  validate_with orc (FStr r o) x = (do s <- str_validate orc r o x ;; Ok (PStr s)).
+Proof. intros orc r o x H; destruct x; [congruence|reflexivity..]. Qed.
+Lemma v_int : forall orc r mn mx x, x <> PNone -> validate_with orc (FInt r mn mx) x = int_validate mn mx x.
+Proof. intros orc r mn mx x H; destruct x; [congruence|reflexivity..]. Qed.
+Lemma v_float : forall orc r mn mx x, x <> PNone -> validate_with orc (FFloat r mn mx) x = float_validate mn mx x.
+Proof. intros orc r mn mx x H; destruct x; [congruence|reflexivity..]. Qed.
+Lemma v_bool : forall orc r x, x <> PNone -> validate_with orc (FBool r) x = bool_validate x.
+Proof. intros orc r x H; destruct x; [congruence|reflexivity..]. Qed.
+Lemma v_ipv4 : forall orc r o x, x <> PNone -> validate_with orc (FIPv4 r o) x = ipv4_validate orc r o x.
+Proof. intros orc r o x H; destruct x; [congruence|reflexivity..]. Qed.
+Lemma v_net : forall orc r o a b x, x <> PNone -> validate_with orc (FNet r o a b) x = net_validate orc r o a b x.
+Proof. intros orc r o a b x H; destruct x; [congruence|reflexivity..]. Qed.
+Lemma v_host : forall orc r o a b x, x <> PNone -> validate_with orc (FHost r o a b) x = host_validate orc r o a b x.
+Proof. intros orc r o a b x H; destruct x; [congruence|reflexivity..]. Qed.
+Lemma v_bytes : forall orc r e x, x <> PNone -> validate_with orc (FBytes r e) x = bytes_validate x.
+Proof. intros orc r e x H; destruct x; [congruence|reflexivity..]. Qed.
+
+Lemma bind_ok : forall (A B : Type) (r : res A) (k : A -> res B) b,
+  bind r k = Ok b -> exists a, r = Ok a /\ k a = Ok b.
+Proof. intros A B r k b H. destruct r; try discriminate. eauto. Qed.
+
+(* ============================ idempotence ============================ *)
+Theorem validate_idem : forall orc f x v,
+  known_F13 f = false -> validate_with orc f x = Ok v -> validate_with orc f v = Ok v.
+Proof.
+  intros orc f x v HF H.
+  destruct (pyval_none_dec x) as [->|Hx].
+  { rewrite validate_none in H. destruct (field_req f) eqn:R; [discriminate|]. injection H as <-.
+    rewrite validate_none, R. reflexivity. }
+  destruct f; cbn [known_F13] in HF.
+  - (* FAny *) rewrite v_any in H by exact Hx. injection H as <-. now rewrite v_any.
+  - (* FStr *) rewrite v_str in H by exact Hx. apply bind_ok in H as [s [E H]]. injection H as <-.
+    rewrite v_str by discriminate. rewrite (str_validate_idem _ _ _ _ _ HF E). reflexivity.
+  - (* FInt *) rewrite v_int in H by exact Hx. apply int_validate_exact in H as [z [_ [Hb ->]]].
+    rewrite v_int by discriminate. now apply int_validate_fixpoint.
+  - (* FFloat *) rewrite v_float in H by exact Hx. apply float_validate_ok in H as [g [_ [Hb ->]]].
+    rewrite v_float by discriminate. now apply float_validate_fixpoint.
+  - (* FBool *) rewrite v_bool in H by exact Hx. apply bool_validate_exact in H as [b [_ ->]]. reflexivity.
+  - (* FIPv4 *) rewrite v_ipv4 in H by exact Hx. unfold ipv4_validate in H. apply bind_ok in H as [s [E H]].
+    destruct (parse_ipv4 s) as [a|] eqn:P; [|discriminate]. injection H as <-.
+    rewrite (parse_ipv4_canonical _ _ P). rewrite v_ipv4 by discriminate. unfold ipv4_validate.
+    rewrite (str_validate_idem _ _ _ _ _ HF E). cbn [bind]. rewrite P, (parse_ipv4_canonical _ _ P). reflexivity.
+  - (* FNet: idempotent for every option combination since F49 *)
+    rewrite v_net in H by exact Hx. unfold net_validate in H. apply bind_ok in H as [s [E H]].
+    apply bind_ok in H as [[a p] [P H]].
+    destruct (match minp with Some m => Z.of_N p <? m | None => false end) eqn:C1; [discriminate|].
+    destruct (match maxp with Some m => m <? Z.of_N p | None => false end) eqn:C2; [discriminate|].
+    cbv zeta in H. apply bind_ok in H as [s' [E2 H]].
+    destruct (str_eqb s' (print_net a p)) eqn:Q; [|discriminate]. injection H as <-.
+    apply str_eqb_eq in Q. subst s'.
+    destruct (parse_net_sound _ _ _ P) as (Ba & Bp & Bh).
+    rewrite v_net by discriminate. unfold net_validate. rewrite E2. cbn [bind].
+    rewrite (net_roundtrip a p Ba Bp Bh). cbn [bind]. rewrite C1, C2. cbv zeta. rewrite E2. cbn [bind].
+    rewrite str_eqb_refl. reflexivity.
+  - (* FHost *) rewrite v_host in H by exact Hx. unfold host_validate in H. apply bind_ok in H as [s [E H]].
+    pose proof (str_validate_idem _ _ _ _ _ HF E) as E'.
+    destruct (parse_ipv4 s) as [a|] eqn:P.
+    + destruct allow_ipv4; [|discriminate]. injection H as <-. rewrite (parse_ipv4_canonical _ _ P).
+      rewrite v_host by discriminate. unfold host_validate. rewrite E'. cbn [bind].
+      rewrite P, (parse_ipv4_canonical _ _ P). reflexivity.
+    + destruct resolve; [discriminate|]. destruct (all_ascii s) eqn:A; [|discriminate].
+      destruct (dns_match s || netbios_match s) eqn:M; [|discriminate]. injection H as <-.
+      rewrite v_host by discriminate. unfold host_validate. rewrite E'. cbn [bind]. rewrite P, A, M. reflexivity.
+  - (* FBytes *) rewrite v_bytes in H by exact Hx. destruct x; try discriminate; cbn in H.
+    + destruct (utf8_enc s); [|discriminate]. injection H as <-. reflexivity.
+    + injection H as <-. reflexivity.
+  - (* FListU *) destruct x as [| | | | | |tg l|l|tg d| |]; cbn in H; try discriminate; try congruence.
+    + destruct (req && is_nil l) eqn:R; [discriminate|]. injection H as <-. cbn. now rewrite R.
+    + destruct (req && is_nil l) eqn:R; [discriminate|]. injection H as <-. cbn. now rewrite R.
+  - (* FListT: the result is a proxy of this field, which is kept as it is *)
+    assert (G : forall tg l, (if req && is_nil l then Err EValue
+               else if (tg =? fid + 1)%N then Ok (PList (fid + 1)%N l)
+               else if negb (tg =? 0)%N then Unmodelled
+               else do l' <- map_res (validate_with orc f) l ;; Ok (PList (fid + 1)%N l')) = Ok v ->
+               validate_with orc (FListT fid req f) v = Ok v).
+    { intros tg l G. destruct (req && is_nil l) eqn:R; [discriminate|].
+      destruct (tg =? fid + 1)%N.
+      - injection G as <-. cbn. rewrite R, N.eqb_refl. reflexivity.
+      - destruct (negb (tg =? 0)%N); [discriminate|]. apply bind_ok in G as [l' [M G]]. injection G as <-.
+        cbn. rewrite (is_nil_length _ l' l (map_res_length _ _ _ _ _ M)), R, N.eqb_refl. reflexivity. }
+    destruct x as [| | | | | |tg l|l|tg d| |]; cbn [validate_with] in H; try discriminate; try congruence;
+      [exact (G tg l H)|exact (G 0%N l H)].
+  - (* FDictU *) destruct x as [| | | | | |tg l|l|tg d| |]; cbn in H; try discriminate; try congruence.
+    destruct (req && is_nil d) eqn:R; [discriminate|]. injection H as <-. cbn. now rewrite R.
+  - (* FDictT *) destruct x as [| | | | | |tg l|l|tg d| |]; cbn in H; try discriminate; try congruence.
+    destruct (req && is_nil d) eqn:R; [discriminate|].
+    destruct (tg =? fid + 1)%N.
+    + injection H as <-. cbn. rewrite R, N.eqb_refl. reflexivity.
+    + destruct (negb (tg =? 0)%N); [discriminate|]. apply bind_ok in H as [d' [M H]].
+      apply bind_ok in H as [d'' [B H]]. injection H as <-. cbn.
+      assert (Rn : req && is_nil d'' = false).
+      { destruct req; [cbn in *|reflexivity]. apply is_nil_false. apply is_nil_false in R.
+        apply (dict_build_nonnil _ _ B). intro Hn. apply R. apply length_zero_iff_nil.
+        rewrite <- (map_res_length _ _ _ _ _ M), Hn. reflexivity. }
+      rewrite Rn, N.eqb_refl. reflexivity.
+  - (* FOpaque *) destruct x; [congruence|discriminate..].
+Qed.
+
+Example validate_idem_hyp_sat : known_F13 (FStr true (mk_sopts (Some 1) None None [] CLower SWs)) = false /\
+  validate (FStr true (mk_sopts (Some 1) None None [] CLower SWs)) (PStr (sa " Ab ")) = Ok (PStr (sa "ab")).
+Proof. split; vm_compute; reflexivity. Qed.
+
+(* F13: strip(chars) runs before the case transform, so a validated value can be stripped further *)
+Definition f13_field : field := FStr false (mk_sopts None None None [] CLower (SChars (sa "a"))).
+Lemma validate_idem_refuted :
+  exists f x v, known_F13 f = true /\ validate f x = Ok v /\ validate f v <> Ok v.
+Proof.
+  exists f13_field, (PStr (sa "Ab")), (PStr (sa "ab")).
+  split; [reflexivity|]. split; [vm_compute; reflexivity|]. vm_compute. discriminate.
 Qed.
